@@ -55,9 +55,9 @@ func (w *W) hashUF(name string, in []*smt.Term, outBytes int, injective bool) []
 			for _, a := range apps {
 				if (a.in == nil) != (inT == nil) || (a.in != nil && a.in.W != inT.W) {
 					// different input lengths never collide
-					w.S.Assert(c.Not(c.Eq(a.out, out)))
+					w.assertRaw(c.Not(c.Eq(a.out, out)))
 				} else if a.in != nil {
-					w.S.Assert(c.Implies(c.Eq(a.out, out), c.Eq(a.in, inT)))
+					w.assertRaw(c.Implies(c.Eq(a.out, out), c.Eq(a.in, inT)))
 				}
 			}
 			w.ufApps[name] = append(apps, ufApp{in: inT, out: out})
